@@ -86,14 +86,14 @@ type c04Job struct {
 }
 
 // ---------- the randomised GetMove: model correspondence (CASE RAND) ----------
-//   CASE RAND ; <cfg: size depth evk nosort nonull noreduce multicut tablelen> ; <RandomizeWindow> ; <RandomizeScale> ; <Int63 stream v0,v1,...> ; <enc position> | <move> | PANIC
-// MinimaxAI.GetMove with RandomizeWindow > 0 on a fresh engine whose configuration is deterministic for the model (NoSort, no symmetry
-// de-duplication, a table of at most 4096 entries or none).  Analyze creates ai.rand from Cfg.Seed, so the values the randomised choice
+//   CASE RAND ; <cfg: size depth evk nosort nonull noreduce multicut tablelen dedup> ; <RandomizeWindow> ; <RandomizeScale> ; <Int63 stream v0,v1,...> ; <enc position> | <move> | PANIC
+// MinimaxAI.GetMove with RandomizeWindow > 0 (or, with Cfg.DedupSymmetry, window 0: the model of coq/SearchDedup.v) on a fresh engine whose
+// configuration is deterministic for the model (NoSort, a table of at most 4096 entries or none).  Analyze creates ai.rand from Cfg.Seed, so the values the randomised choice
 // draws are the first values of rand.NewSource(seed).Int63(): they are written into the case, and the extracted model
 // (coq/SearchRand.v: get_move) replays the whole call from them.  The returned move is also judged by the direct oracle.
 func c04RunRandModel(o *c04Out, sc srchCfg, window, scale, seed int64, pp c04Pos) {
 	cfg := ai.MinimaxConfig{Size: sc.size, Depth: sc.depth, Seed: seed, TableMem: sc.tableMem, RandomizeWindow: window, RandomizeScale: scale,
-		NoSort: sc.nosort, NoNullMove: sc.nonull, NoReduceSlides: sc.noreduce, MultiCut: sc.multicut}
+		NoSort: sc.nosort, NoNullMove: sc.nonull, NoReduceSlides: sc.noreduce, MultiCut: sc.multicut, DedupSymmetry: sc.dedup}
 	if sc.precise() {
 		cfg.NoExtendForces = true
 	}
@@ -112,9 +112,12 @@ func c04RunRandModel(o *c04Out, sc srchCfg, window, scale, seed int64, pp c04Pos
 	}
 	var m tak.Move
 	pan, msg := safely(func() { m = eng.GetMove(context.Background(), pp.p) })
-	in := fmt.Sprintf("RAND ; %d %d %d %d %d %d %d %d ; %d ; %d ; %s ; %s", sc.size, sc.depth, sc.evk, b2i(sc.nosort), b2i(sc.nonull), b2i(sc.noreduce),
-		b2i(sc.multicut), tlen, window, scale, strings.Join(vals, ","), enc(pp.p))
+	in := fmt.Sprintf("RAND ; %d %d %d %d %d %d %d %d %d ; %d ; %d ; %s ; %s", sc.size, sc.depth, sc.evk, b2i(sc.nosort), b2i(sc.nonull), b2i(sc.noreduce),
+		b2i(sc.multicut), tlen, b2i(sc.dedup), window, scale, strings.Join(vals, ","), enc(pp.p))
 	o.stat("rand_model_cases", 1)
+	if sc.dedup {
+		o.stat("rand_model_dedup_cases", 1)
+	}
 	o.stat(fmt.Sprintf("rand_model_size_%d", sc.size), 1)
 	o.stat(fmt.Sprintf("rand_model_depth_%d", sc.depth), 1)
 	if pan {
@@ -1599,6 +1602,10 @@ func runC04(c *ctx) {
 			scale = []int64{2, 3, 7}[r.Intn(3)] // pv[0] scores window/scale >= 1 points first, so Int63n's argument stays positive
 		}
 		kind := []string{"opening", "middle", "middle", "nearterm", "lowres"}[r.Intn(5)]
+		if j%5 == 4 {
+			// Cfg.DedupSymmetry (model coq/SearchDedup.v): the plain GetMove (window 0 = Analyze's first move), in the plies where the option acts
+			sc.dedup, window, scale, kind = true, 0, 1, "opening"
+		}
 		pp, ok := newPos(size, kind)
 		if !ok {
 			continue
